@@ -30,7 +30,7 @@ Passes == <<
 >>
 Pool == <<228, 8491, 65313, 64257, 178, 54620, 119964, 128512, 97, 776, 32, 49, 241, 937>>
 NFixed == 5 * 2 * Len(Passes)
-NMix   == IF Thorough THEN 3000 ELSE 60
+NMix   == IF Thorough THEN 3000 ELSE 150
 Count  == NFixed + NMix
 ItemAt(g) ==
   IF g <= NFixed THEN
